@@ -167,8 +167,9 @@ Proof.
     [|repeat split; try discriminate; try exact I|repeat split; try discriminate; try exact I|contradiction].
   apply line_int_bounds in Hs.
   destruct (len =? -1)%Z; [repeat split; try discriminate; cbn [ok_range length] in *; lia|].
-  destruct ((len <? 0) || (MAX_BULK_STRING_SIZE <? len))%Z; [repeat split; try discriminate; try exact I|].
-  destruct (Nat.ltb_spec (length (m :: r)) (c + Z.to_nat len + 2)); [repeat split; try discriminate; try exact I|].
+  destruct ((len <? 0) || (MAX_BULK_STRING_SIZE <? len))%Z eqn:Hr; [repeat split; try discriminate; try exact I|].
+  apply orb_false_elim in Hr. destruct Hr as [Hr1 _]. apply Z.ltb_ge in Hr1.
+  destruct (Z.ltb_spec (Z.of_nat (length (m :: r))) (Z.of_nat c + len + 2)); [repeat split; try discriminate; try exact I|].
   destruct (utf8_valid _); repeat split; try discriminate; try exact I; cbn [ok_range length] in *; lia.
 Qed.
 
@@ -274,9 +275,10 @@ Proof.
   assert (Hl : lfinal (line_int d)) by (destruct (line_int d); cbn in *; auto).
   rewrite (line_int_ext d x Hl).
   destruct (line_int d) as [len c| | |] eqn:Hli; try reflexivity.
-  destruct (len =? -1)%Z; [reflexivity|]. destruct ((len <? 0) || (MAX_BULK_STRING_SIZE <? len))%Z; [reflexivity|].
-  destruct (Nat.ltb_spec (length d) (c + Z.to_nat len + 2)) as [Hs|Hs]; [cbn in H; contradiction|].
-  rewrite app_length. destruct (Nat.ltb_spec (length d + length x) (c + Z.to_nat len + 2)); [lia|].
+  destruct (len =? -1)%Z; [reflexivity|]. destruct ((len <? 0) || (MAX_BULK_STRING_SIZE <? len))%Z eqn:Hr; [reflexivity|].
+  apply orb_false_elim in Hr. destruct Hr as [Hr1 _]. apply Z.ltb_ge in Hr1.
+  destruct (Z.ltb_spec (Z.of_nat (length d)) (Z.of_nat c + len + 2)) as [Hs|Hs]; [cbn in H; contradiction|].
+  rewrite app_length. destruct (Z.ltb_spec (Z.of_nat (length d + length x)) (Z.of_nat c + len + 2)); [lia|].
   rewrite skipn_app. rewrite firstn_app.
   assert (Hz : (Z.to_nat len - length (skipn c d) = 0)%nat) by (rewrite skipn_length; lia).
   rewrite Hz. cbn [firstn]. rewrite app_nil_r. reflexivity.
@@ -372,3 +374,34 @@ Proof.
   - assert (Hf : final (fst (parse_with depth p))) by (rewrite Hp; exact I).
     rewrite (parse_with_ext depth p s Hf), Hp in Hfull. discriminate.
 Qed.
+
+(* ---------------- declared sizes and nesting beyond the limits are rejected ---------------- *)
+Lemma bulk_limit d len c : line_int d = LOk len c -> (len < -1 \/ MAX_BULK_STRING_SIZE < len)%Z ->
+  parse_bulk d = PErr BadBulkLen.
+Proof.
+  intros Hl Hr. unfold parse_bulk. rewrite Hl.
+  destruct (Z.eqb_spec len (-1)); [unfold MAX_BULK_STRING_SIZE in Hr; lia|].
+  destruct (Z.ltb_spec len 0); destruct (Z.ltb_spec MAX_BULK_STRING_SIZE len); try reflexivity. lia.
+Qed.
+
+Lemma array_limit f depth r cnt c : (depth < max_depth)%nat -> line_int (42 :: r) = LOk cnt c ->
+  (cnt < -1 \/ MAX_ARRAY_SIZE < cnt)%Z ->
+  parse (S f) depth (42 :: r) = (PErr BadArrayLen, depth).
+Proof.
+  intros Hd Hl Hr. cbn [parse].
+  change (42 =? 43) with false. change (42 =? 45) with false. change (42 =? 58) with false. change (42 =? 36) with false.
+  change (42 =? 42) with true. cbn iota.
+  destruct (Nat.leb_spec max_depth depth); [lia|]. rewrite Hl.
+  destruct (Z.eqb_spec cnt (-1)); [unfold MAX_ARRAY_SIZE in Hr; lia|].
+  destruct (Z.ltb_spec cnt 0); destruct (Z.ltb_spec MAX_ARRAY_SIZE cnt); try reflexivity. lia.
+Qed.
+
+Lemma depth_limit f depth r : (max_depth <= depth)%nat -> parse (S f) depth (42 :: r) = (PErr TooDeep, depth).
+Proof.
+  intros Hd. cbn [parse].
+  change (42 =? 43) with false. change (42 =? 45) with false. change (42 =? 58) with false. change (42 =? 36) with false.
+  change (42 =? 42) with true. cbn iota. destruct (Nat.leb_spec max_depth depth); [reflexivity|lia].
+Qed.
+
+Lemma max_depth_value : max_depth = Z.to_nat MAX_ARRAY_DEPTH.
+Proof. reflexivity. Qed.
